@@ -124,7 +124,7 @@ def _ancestors(tag: Any) -> List[Any]:
     return r
 
 
-def _producer(a: Any, page: str, anc: List[Any]) -> str:
+def _producer(a: Any, page: str, anc: List[Any], indexpage: bool = False) -> str:
     """Which link producer of the templates wrote this <a> / <link> / <script> / <img> ?"""
     if a.name != "a":
         return "static"
@@ -143,6 +143,11 @@ def _producer(a: Any, page: str, anc: List[Any]) -> str:
     if inside("footer") or inside(cls="navlinks") or inside(cls="navbar-header") or inside(cls="mainnavbar") \
             or inside(id_="search-results-container"):
         return "nav"
+    if indexpage:                                      # summary.IndexPage (more than one root)
+        par = a.parent
+        if par is not None and par.name == "code" and par.parent is not None and par.parent.name == "li":
+            return "indexRoots"
+        return "indexStatic"
     if page in SUMMARY_PAGES or inside("ul", id_="summaryTree") or inside(cls="letterlinks"):
         if inside(cls="letterlinks"):
             return "letterlinks"
@@ -160,8 +165,6 @@ def _producer(a: Any, page: str, anc: List[Any]) -> str:
                 return "classIndex"
             if gp is not None and gp.name == "li" and page == "classIndex" and first is par:
                 return "classIndexExternal"
-        if page == "index" and not inside("li", None, None):
-            return "indexStatic"
         return "summaryDoc"
     if inside("h1"):
         return "namespace"
@@ -204,8 +207,6 @@ def _producer(a: Any, page: str, anc: List[Any]) -> str:
         return "extras"
     if inside(cls="moduleDocstring"):
         return "docstring"
-    if page == "index":
-        return "indexStatic"
     return "other"
 
 
@@ -235,6 +236,7 @@ def crawl(outdir: str) -> Dict[str, Any]:
             continue                                # same bytes as its target
         text = (out / rel).read_text(encoding="utf-8")
         soup = BeautifulSoup(text, "html.parser")
+        indexpage = page == "index" and soup.find("div", class_="page-header") is None
         anchors, nameanchors = set(), set()
         for t in soup.find_all(True):
             if t.get("id"):
@@ -254,7 +256,7 @@ def crawl(outdir: str) -> Dict[str, Any]:
                     continue
                 path, frag = sp
                 anc = _ancestors(t)
-                prod = _producer(t, page, anc)
+                prod = _producer(t, page, anc, indexpage)
                 # a relative reference is resolved against the page's own directory (all pages are at top level)
                 tfile = file_id(path) if path else page
                 member = ""
@@ -265,7 +267,7 @@ def crawl(outdir: str) -> Dict[str, Any]:
                         member = nm[0] if nm else ""
                 site["links"].append({"page": page, "file": tfile, "frag": frag, "prod": prod, "raw": v,
                                       "samepage": path == "", "member": member})
-        _entries(soup, page, site)
+        _entries(soup, page, site, indexpage)
         if page == "all-documents":
             for li in soup.find_all("li"):
                 if li.get("id") is None or li.find("div", class_="url") is None:
@@ -309,7 +311,7 @@ def _first_link(tag: Any) -> Optional[Any]:
     return None
 
 
-def _entries(soup: Any, page: str, site: Dict[str, Any]) -> None:
+def _entries(soup: Any, page: str, site: Dict[str, Any], indexpage: bool = False) -> None:
     """Listing entries: one record per row / item that lists an object, with its private marker."""
     def add(kind: str, a: Any, marked: bool, scope_marked: bool) -> None:
         sp = _split(a.get("href") or "")
@@ -345,11 +347,11 @@ def _entries(soup: Any, page: str, site: Dict[str, Any]) -> None:
             a = _first_link(item)
             if a is not None and a.find_parent("div", class_="itemName") is item:
                 add("sidebar", a, _has_private(li), under_private(li))
-    if page in ("moduleIndex", "classIndex", "nameIndex", "undoccedSummary") or (page == "index" and soup.find("h2")):
+    if page in ("moduleIndex", "classIndex", "nameIndex", "undoccedSummary") or indexpage:
         for a in soup.find_all("a"):
             if a.get("href") is None:
                 continue
-            prod = _producer(a, page, _ancestors(a))
+            prod = _producer(a, page, _ancestors(a), indexpage)
             if prod in ("moduleIndex", "classIndex", "nameIndex", "undocced", "indexRoots"):
                 holder = a.find_parent("li") if a.find_parent("span") is None or page != "moduleIndex" \
                     else a.find_parent("span")
